@@ -86,6 +86,7 @@ def gen_spec(rng, tier="quick", for_crash=False, anchor=None):
             micro = None
     if rng.random() < 0.5:
         rng.shuffle(ts)
+    scale_used = rng.choice([20, 3, 50]) if (kind == "number" and rng.random() < 0.2) else None
     for t in ts:
         d = {"time": t, "width": rng.choice([50, 30, 20, 80, 12.5, 5, rng.randint(5, 120)] + ([100 / 3, 37.123456789, 0.1 + 0.2 + 20] if rng.random() < 0.3 else []))}
         if rng.random() < 0.5:
@@ -171,7 +172,10 @@ def gen_spec(rng, tier="quick", for_crash=False, anchor=None):
     opt_mode = "given"
     if for_crash:
         opt_mode = rng.choice(["given", "given", "none", "empty", "omitted"])
-    return {"kind": kind, "data": data, "options": o, "opt_mode": opt_mode}
+    out = {"kind": kind, "data": data, "options": o, "opt_mode": opt_mode}
+    if scale_used:
+        out["scale_used"] = scale_used
+    return out
 
 
 TEXT_FNS = {"upper": lambda d: d["text"].upper() if "text" in d else None,
@@ -252,6 +256,11 @@ def build_args(spec):
         o["textFn"] = TEXT_FNS[o["textFn"]["fn"]]
     if kind == "number":
         o["scale"] = LinearScale()
+        if spec.get("scale_used"):
+            # the caller has used this scale object before (asked it for ticks with a count of its own) — what it was asked before is no part of the picture
+            o["scale"].domain([0, 1])
+            list(o["scale"].ticks(spec["scale_used"]))
+            o["scale"].tickFormat(spec["scale_used"])
     if "domain" in o and kind != "number":
         o["domain"] = [to_dt(x) for x in o["domain"]]
     mode = spec.get("opt_mode", "given")
